@@ -52,6 +52,12 @@ def raw_graph_script(rng, n_nodes, n_rounds):
         s.append({"op": "ExportDoc", "g": real_tgt})     # serialising the copy again gives the same content
         if rng.random() < 0.5:
             s.append({"op": "AddNode", "g": "other", "n": "x%d" % k, "cls": "K2", "props": {}})
+        # history: the target id was used before (deleted, or merely asked about) - the re-import must still take place
+        if rng.random() < 0.35 and entry in ("string", "file") and tgt != src:
+            s.append({"op": "ExportDoc", "g": src})
+            s.append({"op": rng.choice(["DeleteGraph", "DeleteGraph", "GraphExists"]), "g": tgt})
+            s.append({"op": "Import", "entry": rng.choice(["string", "file"]), "h": tgt})
+            s.append({"op": "ExportDoc", "g": tgt})
         src = real_tgt
     s.append({"op": "GetNodeProps", "g": "G", "n": ids[0]})
     return s
